@@ -104,6 +104,7 @@ func (s *Supervisor) checkScan(rec *ScanRecord) {
 			x.c04()
 			x.c05()
 			x.c06()
+			x.c06Starve()
 			x.c07()
 			x.c08()
 			x.c09()
@@ -404,6 +405,10 @@ func (x *scanCtx) c20Recovery() {
 		if exp, why := x.expectsAction(); exp {
 			x.check("c20-recovery")
 			x.s.stats.Probe("clean scan right after a failed action")
+			if len(gs.Calls) == 0 && g.LaunchTemplateID != "" && (strings.HasPrefix(last.what, "ec2.") || strings.HasPrefix(last.what, OpAttach)) {
+				x.check("c18-no-lock")
+				x.viol("C18", "c18-no-lock", "", "", fmt.Sprintf("the fleet scale-up of scan %d failed (%s) yet %d scan(s) later the group is not acted on although %s: a cool-down was taken for capacity that did not arrive", last.scan, last.what, x.rec.Index-last.scan, why))
+			}
 			if len(gs.Calls) == 0 {
 				x.viol("C20", "c20-recovery", "", last.what, fmt.Sprintf("scan %d met a failure (%s); %d scan(s) later, with no fault and no cool-down in force, %s, yet the scan did nothing", last.scan, last.what, x.rec.Index-last.scan, why))
 			}
@@ -411,6 +416,9 @@ func (x *scanCtx) c20Recovery() {
 	}
 	// remember failures of this scan
 	for _, c := range gs.Calls {
+		if c.Op == OpTerminateEC2 {
+			x.s.lastFailure[g.Name] = failureNote{scan: x.rec.Index, life: x.rec.Life, what: "ec2.create-fleet not-all-attached"}
+		}
 		if c.Err != "" && c.Fault != "" && c.Fault != "409-natural" {
 			x.s.lastFailure[g.Name] = failureNote{scan: x.rec.Index, life: x.rec.Life, what: c.Op + " " + c.Fault}
 		}
@@ -849,6 +857,13 @@ func (x *scanCtx) c06() {
 	if addsCapacity && taintAttempts > 0 {
 		x.viol("C06", "c06-trigger-tainted", "", site, "the same scan both added capacity and tainted", firstTaint, firstUntaint)
 	}
+	if !a.Clean && a.CleanTaint && !trigger && !addsCapacity {
+		// faults confined to the reap phase: the band still prescribes the exact taint count
+		if exp, strict := x.expectedTaints(); strict && exp > 0 && a.TaintOK != exp {
+			x.check("c06-count")
+			x.viol("C06", "c06-wrong-count", "reap-phase-fault", site, fmt.Sprintf("u=%s%% bands=%v: expected %d taints although a removal call failed in this scan, saw %d", a.UMax.FloatString(6), bandList(a), exp, a.TaintOK), putsOf(a, "taint")...)
+		}
+	}
 	if !a.Clean {
 		// counts become upper bounds
 		if exp, strict := x.expectedTaints(); strict && !trigger && a.TaintOK > exp && !hasAppliedButFailedPut(a) {
@@ -886,6 +901,90 @@ func (x *scanCtx) c06() {
 		noRoom := len(a.Tainted) == 0 && k.Valid && k.Desired >= boundOf(gs, k)
 		if int64(a.UntaintOK)+a.Requested < 1 && !noRoom {
 			x.viol("C06", "c06-wrong-direction", "no-scale-up", ifs(hasAckedTerminate(gs), "after-same-scan-removal", site), fmt.Sprintf("u=%s%% above the scale-up threshold %d but no capacity was added", a.UMax.FloatString(6), g.ScaleUp))
+		}
+	}
+}
+
+// starveMustFire: scale_on_starve is documented as "a minimum scaling of 1 new node whenever there is a
+// pod that cannot currently be scheduled due to no node having capacity to run it". Sufficient condition
+// used here: an unbound Pending pod of the view asks for more cpu (or more memory) than is free on EVERY
+// untainted node of the view (free = allocatable minus the requests of the scheduled pods bound to it).
+// Returns the pod and whether a cordoned node of the view would have had the room.
+func (x *scanCtx) starveMustFire() (*v1.Pod, bool) {
+	a, gs, g := x.a, x.gs, x.g
+	if !g.Starve || a.U >= gs.MaxEff || a.U == 0 {
+		return nil, false
+	}
+	type room struct{ cpu, mem *big.Int }
+	free := map[string]*room{}
+	for _, n := range gs.Nodes {
+		free[n.Name] = &room{new(big.Int).Set(resCPU(n.Status.Allocatable)), new(big.Int).Set(resMem(n.Status.Allocatable))}
+	}
+	for _, p := range gs.Pods {
+		r, ok := free[p.Spec.NodeName]
+		if !ok {
+			continue
+		}
+		sched := false
+		for _, c := range p.Status.Conditions {
+			if c.Type == v1.PodScheduled && c.Status == v1.ConditionTrue {
+				sched = true
+			}
+		}
+		if sched && (p.Status.Phase == v1.PodPending || p.Status.Phase == v1.PodRunning) {
+			c, m := podRequest(p)
+			r.cpu.Sub(r.cpu, c)
+			r.mem.Sub(r.mem, m)
+		}
+	}
+	for _, p := range gs.Pods {
+		if p.Status.Phase != v1.PodPending || p.Spec.NodeName != "" {
+			continue
+		}
+		c, m := podRequest(p)
+		cpuStarved, memStarved := c.Sign() > 0, m.Sign() > 0
+		for _, n := range a.Untainted {
+			if free[n.Name].cpu.Cmp(c) >= 0 {
+				cpuStarved = false
+			}
+			if free[n.Name].mem.Cmp(m) >= 0 {
+				memStarved = false
+			}
+		}
+		if cpuStarved || memStarved {
+			cordonedFits := false
+			for _, n := range a.Cordoned {
+				if free[n.Name].cpu.Cmp(c) >= 0 && free[n.Name].mem.Cmp(m) >= 0 {
+					cordonedFits = true
+				}
+			}
+			return p, cordonedFits
+		}
+	}
+	return nil, false
+}
+
+func (x *scanCtx) c06Starve() {
+	a, gs := x.a, x.gs
+	if a.Kind != kNormal || a.Locked || !a.Clean || a.Bands["up"] {
+		return
+	}
+	p, cordonedFits := x.starveMustFire()
+	if p == nil {
+		return
+	}
+	x.check("c06-starve")
+	x.s.stats.Probe("starve trigger must fire (a pending pod fits on no untainted node)")
+	k := a.KnownEnd
+	noRoom := len(a.Tainted) == 0 && k.Valid && k.Desired >= boundOf(gs, k)
+	if noRoom {
+		return
+	}
+	if len(a.UntaintAttempted) == 0 && len(a.Increase) == 0 {
+		c, m := podRequest(p)
+		x.viol("C06", "c06-starve-missed", "", "", fmt.Sprintf("scale_on_starve is on and pending pod %s (cpu %vm, mem %vB) fits on no untainted node of the view, yet no capacity was added", p.Name, c, m))
+		if cordonedFits {
+			x.viol("C09", "c09-counted", "starve-room", "", fmt.Sprintf("pending pod %s fits only on a cordoned node; the starve decision treated that room as available", p.Name))
 		}
 	}
 }
